@@ -136,6 +136,7 @@ static void run_case(const hist_t* h, bool io_modes) {
     mcf_reset(); if (C05) { mcf_on(); mcf_poison(0xA5); }
     int rej = tbl_write(h, &img, &len, &st, &where);
     mcf_off();
+    if (rej && !strncmp(where, "close returned OK", 16)) { mc_fail("writer.close-ok-but-bytes-not-flushed", "carquet_writer_close returned OK for a caller-owned stream whose buffer still held part of the file"); return; }
     if (rej) { char k[64]; snprintf(k, sizeof k, "rejected.%s.status%d", where, st); mc_count(k, 1); mc_outcome("writer-refused"); return; }
     mc_outcome("written");
     if (!C05) {
